@@ -114,6 +114,48 @@ fn body_two_stores(v1: Vec<usize>, v2: Vec<usize>) {
     stop(&s2, 10);
 }
 
+/// (e) a callback that panics on one delivery (a witness subscriber registered before it records
+/// the notification stream): whatever the store does about the panic, the deliveries stay the
+/// de-duplicated selected values of the notifications that did happen
+fn body_panic(values: Vec<usize>, panic_pos: usize) {
+    let store = build_store(StoreCfg::new(1, 16, Pol::Block));
+    let _d = add_subscriber(&store, Arc::new(ScriptSub::new(9)), 9);
+    let panic_id = aid(panic_pos, values[panic_pos]);
+    log(Ev::Call { op: "add_subscriber", a: 1 });
+    let _s = store.subscribe_with_selector(Sel, move |v: u32, a: Act| {
+        let id = a.id;
+        on_change(v, a);
+        if id == panic_id {
+            panic!("scripted selector callback panic");
+        }
+    });
+    log(Ev::Ret { op: "add_subscriber", a: 1, ok: true, st: vec![] });
+    for (pos, v) in values.iter().enumerate() {
+        dispatch(&store, Act::new(aid(pos, *v)));
+        verif_rt::quiesce();
+    }
+    stop(&store, 0);
+}
+
+pub fn check_panic(r: &ExecResult) -> Vec<Finding> {
+    let mut f: Vec<Finding> = sanity(r).into_iter().filter(|x| x.sig == "process-wide-state" || x.sig == "task-panic").collect();
+    let mut want: Vec<(u32, i64)> = vec![];
+    let mut last: Option<i64> = None;
+    for c in cbs_of(r, "notify").filter(|c| c.comp == 9) {
+        let v = (c.act % 3) as i64;
+        if last != Some(v) {
+            want.push((c.act, v));
+            last = Some(v);
+        }
+    }
+    let got: Vec<(u32, i64)> = cbs_of(r, "sel_change").map(|c| (c.act, c.x)).collect();
+    if got != want {
+        let sig = if got.len() > want.len() { "selector-fired-without-change" } else if got.len() < want.len() { "selector-missed-change" } else { "selector-wrong-value-or-action" };
+        f.push(fnd(sig, format!("after a panicking callback: selector callbacks (action, value) {:?}, but the notifications seen by the witness subscriber select {:?}", got, want)));
+    }
+    f
+}
+
 pub fn check_two_stores(r: &ExecResult) -> Vec<Finding> {
     let mut f = sanity(r);
     let got: Vec<(u32, i64)> = cbs_of(r, "sel_change").map(|c| (c.act, c.x)).collect();
@@ -235,6 +277,18 @@ pub fn scenarios(tier: Tier, seed: i64) -> Vec<Scenario> {
             bound: if tier == Tier::Quick { 2 } else { 3 },
             body: Arc::new(move || body_two_stores(a2.clone(), b2.clone())),
             check: Arc::new(check_two_stores),
+        });
+    }
+    let panics: Vec<(Vec<usize>, usize)> = if tier == Tier::Quick { vec![(vec![1, 2, 2, 0, 1], 1)] } else { vec![(vec![1, 2, 2, 0, 1], 1), (vec![1, 2, 0], 0), (vec![0, 0, 1, 2], 2)] };
+    for (vals, pos) in panics {
+        let vs = vals.clone();
+        v.push(Scenario {
+            name: format!("C16/panic/{:?}@{}", vals, pos),
+            params: "the selector callback panics on one delivery; a witness subscriber records the notification stream".into(),
+            opts: opts_elide(),
+            bound: if tier == Tier::Quick { 1 } else { 2 },
+            body: Arc::new(move || body_panic(vs.clone(), pos)),
+            check: Arc::new(check_panic),
         });
     }
     // sampling (labelled so): a few long pseudo-random sequences seeded by VERIF_SEED
